@@ -249,11 +249,11 @@ def _problem(case):
         train = rs.rand(r, nd_all)
     train = train * scales[:, None] + (0.0 if kind == 'decoy' else 1.0) * rs.rand(r, 1) * scales[:, None]
     if case.get('dtype'):
-        # whole numbers that every dtype of the sweep can hold (1 .. 241); the relative scale of the training RDMs is kept
+        # whole numbers that every dtype of the sweep can hold: basis 1..7 (case['vmax'] + 1), training RDM i 1..121 / 61 / 31
         if basis.min() < 0 or train.min() < 0:
             raise ValueError('typed problems need non-negative RDMs (kinds random / posmix)')
-        basis = np.rint(basis * (110.0 / basis.max())) + 1.0
-        train = np.rint(train * (240.0 / train.max())) + 1.0
+        basis = np.rint(basis * (float(case.get('vmax', 6)) / basis.max())) + 1.0
+        train = np.array([np.rint(t * ((120.0, 60.0, 30.0)[i % 3] / t.max())) + 1.0 for i, t in enumerate(train)])
     basis = basis * float(case.get('bscale', 1.0))
     train = train * float(case.get('tscale', 1.0))
     n = len(S)
@@ -462,7 +462,9 @@ def _weighted(case, fit_name, nonneg):
     if fit_name == 'fit_regress_nn' and not zero:
         g = crit.gradient(X, theta)
         # plain criteria: exact linear algebra; whitened ones: the library solves with V by conjugate gradients (rtol 1e-5)
-        gtol = (1e-8 if case['method'] in ('cosine', 'corr') else 1e-4) * max(1.0, float(np.max(np.abs(g))))
+        # (single-precision input: the library may do its linear algebra in the precision of the data it was given)
+        gtol = (1e-4 if case['method'] not in ('cosine', 'corr') else 1e-5 if case.get('dtype') == 'float32' else 1e-8)
+        gtol *= max(1.0, float(np.max(np.abs(g))))
         on = theta > 0
         if np.any(np.abs(g[on]) > gtol):
             return f'KKT: gradient of the score on the support of theta is {_fmt(g[on])}, expected 0 (theta {_fmt(theta)})'
@@ -872,6 +874,123 @@ def _weighted_cases(thorough, fit_name):
                                                   kind=('mix', 'random', 'posmix')[(si + k + n_train) % 3],
                                                   method=method, n_train=n_train, sigma=sigma, via='direct'))
     return cases
+
+
+# =====================================================================================================
+# dimension sweeps: typed data, units, containers, grouped descriptors, sizes  (cases for every fitter)
+# =====================================================================================================
+_GROUPS = {      # position -> group: values repeat, are interleaved, unbalanced, and first appear in non-sorted order
+    6: [2, 0, 2, 1, 0, 2],
+    7: [1, 3, 0, 3, 3, 1, 0],
+    9: [4, 1, 1, 0, 4, 2, 4, 0, 4],
+}
+_GROUP_SELECTIONS = {6: [[0, 2], [2, 2, 1], [1, 0, 0]], 7: [[3, 0], [0, 1, 1, 3]], 9: [[4, 0, 2], [2, 1, 1, 0, 0]]}
+_SCALES = (1e-20, 1e12, 1e-12, 1e6, 1e-6, 1e2)
+
+# Classes of the sweeps that FAIL on the unchanged tree (genuine defects, reported; see the docstring): not registered until
+# the main session has decided whether to repair or record them.
+_PENDING_TRIAGE = {}
+
+
+def _sweep_cases(thorough, fit_name):
+    """-> list of (input class, case) along the dimensions the plain domains do not vary.  Every problem is a positive
+    mixture / random problem (whole numbers need non-negative RDMs); for fit_optimize only problems whose unconstrained
+    maximiser is non-negative and for fit_interpolate only chains whose best mixture lies inside a segment are used (the other
+    classes are known findings F3 / F6 of the plain domains and would only repeat them under another name)."""
+    slow = fit_name.startswith('fit_optimize')
+    few = slow or fit_name == 'fit_interpolate'
+    out = []
+    count = [0]
+
+    def add(ic, **kw):
+        i = count[0]
+        count[0] += 1
+        if 'method' in kw:
+            methods = (kw.pop('method'),)
+        elif thorough and not slow:
+            methods = METHODS
+        elif few:
+            methods = (METHODS[i % 4],)
+        else:
+            methods = (METHODS[i % 4], METHODS[(i + 2 + i // 4 % 2) % 4])
+        for method in methods:
+            case = dict(seed=8000 + 13 * i, k=(2, 3)[i % 2], n_all=(6, 5)[(i // 2) % 2], pidx=None, desc='index',
+                        kind=('posmix', 'random')[(i // 3) % 2] if not slow else 'posmix', method=method,
+                        n_train=(3, 1, 4)[i % 3], sigma='none', via='direct')
+            case.update(kw)
+            for _ in range(6):     # deterministic search for a problem of the wanted plain class
+                if fit_name == 'fit_optimize' and _optimum_sign_class(case) != 'optimum-nonnegative':
+                    case['seed'] += 1000
+                elif fit_name == 'fit_interpolate' and _interp_optimum_kind(case) != 'optimum-inside-segment':
+                    case['seed'] += 1000
+                else:
+                    out.append((ic, case))
+                    break
+
+    # ---- typed data: whole numbers handed over as int64 / int32 / int16 / uint8 / float32 arrays
+    for dt in _DTYPES:
+        add('typed-data,' + dt, dtype=dt)
+        if not few or thorough:
+            add('typed-data,' + dt, dtype=dt, pidx=[3, 0, 1, 4])                       # subset, no repeats
+            add('typed-data,' + dt, dtype=dt, pidx=[0, 1, 1, 3, 4], ctor='vectors')    # repeats: the training data hold NaN
+    # ---- units: the same problem in units in which the numbers are tiny or huge (every criterion is invariant)
+    for j, sc in enumerate(_SCALES):
+        if few and not thorough and j >= 2:
+            break
+        add('units,basis-x%g' % sc, bscale=sc)
+        add('units,training-x%g' % sc, tscale=sc)
+        if not few or thorough:
+            add('units,basis-x%g' % sc, bscale=sc, pidx=[0, 1, 1, 3, 4])
+            add('units,training-x%g' % sc, tscale=sc, n_train=3)
+            add('units,basis-and-training-x%g' % sc, bscale=sc, tscale=sc)
+    if not slow:
+        for j, sc in enumerate((1e-12, 1e12, 1e-6, 1e6)):
+            if few and not thorough and j >= 2:
+                break
+            for method in ('cosine_cov', 'corr_cov'):
+                add('units,sigma_k-x%g' % sc, sscale=sc, sigma=('full', 'diag')[j % 2], method=method, n_train=(1, 3)[j % 2])
+    # ---- containers and label types
+    add('containers,pattern_idx-list', pidx=[3, 0, 1, 1, 4], pidx_as='list')
+    add('containers,pattern_idx-tuple', pidx=[4, 4, 2, 0, 1], pidx_as='tuple')
+    add('containers,str-labels', pidx=[3, 0, 1, 1, 4], desc='cond', labels='str')
+    add('containers,str-labels', pidx=[1, 4, 2, 0], desc='cond', labels='str', pidx_as='list')
+    add('containers,model-from-vectors', ctor='vectors')
+    add('containers,model-from-vectors', ctor='vectors', pidx=[4, 4, 2, 0, 1, 2], pidx_as=('array', 'list')[count[0] % 2])
+    # ---- a pattern descriptor whose values repeat (groups of conditions): interleaved, unbalanced, unsorted first appearance
+    for n_all in ((6, 7, 9) if thorough else (6, 7)):
+        for j, sel in enumerate(_GROUP_SELECTIONS[n_all]):
+            if few and not thorough and j:
+                continue
+            add('grouped-descriptor', n_all=n_all, desc='group', groups=_GROUPS[n_all], pidx=sel,
+                labels=('int', 'str')[(j + n_all) % 2], pidx_as=('array', 'list', 'tuple')[(j + n_all) % 3])
+    # ---- sizes
+    if _FITTER_MODEL[fit_name] != 'ModelInterpolate':
+        add('sizes,single-basis-rdm', k=1, size='k=1')
+        if not few or thorough:
+            add('sizes,single-basis-rdm', k=1, size='k=1', pidx=[0, 0, 2, 3, 4], n_all=5)
+    add('sizes,3-conditions', n_all=3, k=2, size='n=3')
+    if not few or thorough:
+        add('sizes,3-conditions', n_all=5, k=2, pidx=[4, 0, 2], size='n=3')
+        add('sizes,3-conditions', n_all=4, k=2, pidx=[3, 1, 1, 0], size='n=3+1')
+    if thorough or not few:
+        add('sizes,10-12-conditions', n_all=10, k=(4 if slow else 5), n_train=5, size='n=10')
+    if thorough:
+        add('sizes,10-12-conditions', n_all=12, k=4, pidx=[11, 0, 3, 3, 5, 1, 6, 6, 9, 10, 2], n_train=5, size='n=12')
+        add('sizes,10-12-conditions', n_all=12, k=(3 if slow else 6), n_train=2, size='n=12', desc='cond')
+    return out
+
+
+def _run_sweeps(bd, orc, fit_name, thorough, function=None):
+    pending = _PENDING_TRIAGE.get(fit_name, ())
+    n = 0
+    for ic, case in _sweep_cases(thorough, fit_name):
+        if any(ic == q or ic.startswith(q + ',') or (q.endswith('*') and ic.startswith(q[:-1])) for q in pending):
+            if False:  # pending triage: the classes listed in _PENDING_TRIAGE (genuine defects on the unchanged tree)
+                bd.check(orc, case, ic, function=function or fit_name)
+            continue
+        bd.check(orc, case, ic, function=function or fit_name)
+        n += 1
+    return n
 
 
 def tier_c(run, thorough):
